@@ -66,4 +66,11 @@ PROPS = {
         "trusted_base": ["ed25519 idealised; threshold crypto symbolic (harness-assigned token ranges from real kyber values)", "JSON decoding by the implementation's decoders in the harness", "wall clock is an input (NOWMARK): the deadline hypothesis of the property is met by construction"],
         "assumptions": ["Poll batching is exercised with the real 1 s ticker on one log only; different batchings of the same log are covered by restarts at random points"],
     },
+    "C16": {
+        "props": "Props/C16.v", "scenarios": ["c16"],
+        "rule": "real FileStorage: W concurrent writers with separate handles (goroutines: 4x25, 6x8 incl. a 700 kB payload; separate OS processes: 3x6) [thorough: 16x50, 8x20, 8x12 processes, 2x200], payload sizes 0 / 1 / 100 / 5 kB / around the 64 KiB line boundary / 70 kB / 200 kB / just below the 1 MiB limit; then reads from six offsets with and without ignore lists (by id and by offset). Oracle: exactly once, offset = position, per-writer order, payload intact, read-from-k. The observed file order is replayed sequentially on the Coq model (offsets, reads). One over-limit line checks that model and reader refuse alike.",
+        "exhaustive": {"quick": False, "thorough": False},
+        "trusted_base": ["flock exclusion and the atomicity of O_APPEND writes are the operating system's; the model's atomic steps are the calls of `send` regenerated from go/ast", "bufio.Scanner token limit modelled as: scanning stops at the first line longer than the limit"],
+        "assumptions": ["interleavings are those the Go scheduler / OS produce in the run; all interleavings are covered by the theorem over schedules, not by the run"],
+    },
 }
